@@ -457,7 +457,7 @@ fn generate(cli: &Cli) -> (Vec<Case>, Vec<String>) {
             // F6: the Keep Alive frame itself half-written when the stage completes
             let ka_off: usize = brun.client.received.iter().take_while(|r| !matches!(r.pkt, Ok(Pkt::ConfKeepAliveOut { .. }))).map(|r| r.frame_len).sum();
             let ka_len = brun.client.received.iter().find(|r| matches!(r.pkt, Ok(Pkt::ConfKeepAliveOut { .. }))).map(|r| r.frame_len).unwrap_or(10);
-            for k in 1..ka_len {
+            for k in 0..ka_len {
                 let mut v = base.clone();
                 v.write_plan = WritePlan { steps: vec![], stalls: vec![(ka_off + k, Duration::from_millis(300))] };
                 cases.push(Case {
